@@ -315,6 +315,55 @@ theorem ptm_only_beyond_max (m : Mol) (R : Residue) (hB : R.block.keys.Nodup) (h
     · rw [hnamed.2.2, hbp ref hmem]
       exact hmp a0 ha0
 
+theorem blockGraph_ecol (b : Block) (u v : Int) : ((blockGraph b).ecol u v).isSome = hasEdge b.edges u v := by
+  apply Bool.eq_iff_iff.2
+  rw [Iso.ecol_isSome_iff, hasEdge_iff]
+  simp only [blockGraph, List.mem_map]
+  constructor
+  · rintro ⟨e, ⟨x, hx, rfl⟩, h⟩; exact ⟨x, hx, h⟩
+  · rintro ⟨x, hx, h⟩; exact ⟨(x.1, x.2, 0), ⟨x, hx, rfl⟩, h⟩
+
+theorem resGraph_ecol (m : Mol) (found : List Int) (u v : Int) (hu : u ∈ found) (hv : v ∈ found) :
+    ((resGraph m found).ecol u v).isSome = hasEdge m.edges u v := by
+  apply Bool.eq_iff_iff.2
+  rw [Iso.ecol_isSome_iff, hasEdge_iff]
+  simp only [resGraph, List.mem_map, List.mem_filter, Bool.and_eq_true, List.contains_eq_mem, decide_eq_true_eq]
+  constructor
+  · rintro ⟨e, ⟨x, ⟨hx, _⟩, rfl⟩, h⟩; exact ⟨x, hx, h⟩
+  · rintro ⟨x, hx, h⟩
+    refine ⟨(x.1, x.2, 0), ⟨x, ⟨hx, ?_⟩, rfl⟩, h⟩
+    rcases h with ⟨h1, h2⟩ | ⟨h1, h2⟩
+    · rw [h1, h2]; exact ⟨hu, hv⟩
+    · rw [h1, h2]; exact ⟨hv, hu⟩
+
+/-- **The repaired residue embeds into the block** (the three facts combined): for two block atoms
+matched by the matcher, the atoms that play them after the repair are different, carry the block
+atoms' names and elements — the element being the one the input atom had —, and they are bonded
+in the repaired molecule exactly if the block atoms are bonded in the block. -/
+theorem embedding_after_repair (m : Mol) (R : Residue) (hB : R.block.keys.Nodup) (hm : m.keys.Nodup)
+    (hf : ∀ k ∈ R.found, k ∈ m.keys)
+    (hM : R.mtch ∈ allMCIS (resGraph m R.found) (blockGraph R.block)) :
+    ∀ p ∈ R.mtch, ∀ q ∈ R.mtch, p.1 ≠ q.1 →
+      p.2 ≠ q.2
+      ∧ (∃ a ∈ (repairResidue m R).mol.nodes, a.key = p.2 ∧ a.name = nameOf R.block p.1
+            ∧ a.elem = elemOf R.block p.1 ∧ (resGraph m R.found).ncol p.2 = (blockGraph R.block).ncol p.1)
+      ∧ hasEdge (repairResidue m R).mol.edges p.2 q.2 = hasEdge R.block.edges p.1 q.1 := by
+  intro p hp q hq hne
+  have h := wf_of_mcis m R hB hm hf hM
+  obtain ⟨e1, e2, e3⟩ := assignment_embedding m R hB hM
+  obtain ⟨⟨ext, hext, _⟩, hcons⟩ := rebuild_conservative m R h
+  have hpf : p ∈ (repairResidue m R).mtch := by rw [hext]; exact List.mem_append_left _ hp
+  obtain ⟨a, ha, hk, hn, he⟩ := canonical_names m R h p hpf
+  refine ⟨e1 p hp q hq hne, ⟨a, ha, hk, hn, he, e2 p hp⟩, ?_⟩
+  have hpk := h.2.2.2.2.2.1 p.2 (mem_ran_of_mem hp)
+  have hqk := h.2.2.2.2.2.1 q.2 (mem_ran_of_mem hq)
+  have hne1 : p.2 ∉ extraAtoms R.found (repairResidue m R).mtch :=
+    fun hc => ((extra_final_iff m R h _).1 hc).2 (mem_ran_of_mem hp)
+  have hne2 : q.2 ∉ extraAtoms R.found (repairResidue m R).mtch :=
+    fun hc => ((extra_final_iff m R h _).1 hc).2 (mem_ran_of_mem hq)
+  rw [hcons p.2 (hf _ hpk) q.2 (hf _ hqk) hne1 hne2, ← resGraph_ecol m R.found p.2 q.2 hpk hqk,
+    ← blockGraph_ecol, e3 p hp q hq hne]
+
 /-! ## independence of names and atom order -/
 
 /-- If some common induced subgraph covers the whole residue, every maximum one does. -/
